@@ -23,6 +23,16 @@ def check(run, driver):
         "least two different positive rates (vectors); distinct by value hash"
     )
     thorough = run.tier == "thorough"
+    # ---- translator: the stop rule (both tolerances, strictness, the reductions), the update of `small` and the zero-probability mask are
+    #      read off the CURRENT source and must be the model's (condB / stepSt / plogp, the functions loop_invariant .. elementwise_independent are about)
+    import gen_tables
+    try:
+        src = gen_tables.poisson_obligation_source()
+        ok, out = gen_tables.obligation_standalone("ObC13", src)
+        run.oblige("ObC13 stop rule, update of `small` and 0*log 0 mask of poisson_entropy regenerated from the source = the model's (decide)", ok, out if not ok else "")
+        run.extra["translator"] = "poisson_entropy loop shape translated"
+    except gen_tables.Untranslatable as e:
+        run.extra["translator"] = f"UNTRANSLATABLE ({e}) -- the loop is outside the recognised shape; the obligation is not established on this run and the property is decided by the comparison with the model and the reference series alone"
     rng = run.rng
     warnings.simplefilter("ignore")
     grid = list(np.logspace(-12, 0, 40 if not thorough else 120)) + list(np.linspace(1, 500, 110 if not thorough else 500))
